@@ -3886,6 +3886,9 @@ func (a *Association) popPendingDataChunksToSend( //nolint:cyclop,gocognit
 
 				if addBytes <= int(a.MTU()) && a.tlrAllowSendLocked(budgetScaled, consumed, addBytes) {
 					vfHook(a, vfEvAdmitProbe, c)
+					// The probe uses up whatever is left of the peer's window;
+					// nothing may follow it until a SACK reopens the window.
+					a.setRWND(a.RWND() - min32(a.RWND(), uint32(len(c.userData)))) //nolint:gosec // G115
 					a.movePendingDataChunkToInflightQueue(c)
 					chunks = append(chunks, c)
 				}
